@@ -10,6 +10,7 @@ import SfsModel.Driver.Proto
 import SfsModel.Driver.Create
 import SfsModel.Driver.Io
 import SfsModel.Driver.Stat
+import SfsModel.Driver.Panic
 open Sfs Sfs.Drv
 
 def half : XR := .fin (1 / 2)
@@ -131,6 +132,7 @@ def handle (op : String) (a : List String) (impl : String) : Option Verdict :=
     | ["c12", "same"] => handleSame a impl
     | ["io", _] => handleIo op a impl
     | ["st", _] => handleStat op a impl
+    | ["pn", _] => handlePanic op a impl
     | _ => none
 
 def processLine (line : String) : String :=
